@@ -403,7 +403,8 @@ def continuity_check(chunk_iter):
 
         last_end = chunk.end
         last_runid = chunk.run_id
-        last_subrun = chunk.last_subrun
+        # A chunk without subrun information (e.g. an empty zero-duration chunk) has no last subrun
+        last_subrun = chunk.last_subrun or {"run_id": None}
 
 
 @export
